@@ -17,7 +17,7 @@ and a stubbed HTTP transport:
 and the document / None / failure, the URI, the big_map keys looked up, the URLs fetched, the contracts asked for and the blocks read are
 compared with the model's.
 
-VERIF_X07_FIXED=1 replays the intended model only (to try a patched tree)."""
+VERIF_X07_FIXED=1 replays the intended model only, VERIF_X07_FIXED=Name,Name,.. the model without the named deviations (to try a patched tree)."""
 import hashlib, json, os
 
 from .. import x07_world as W
@@ -649,11 +649,18 @@ def run_part3(ctx, devs, stats):
 def run(ctx):
     W.install()
     set_universe(not ctx.quick)
-    fixed = bool(os.environ.get('VERIF_X07_FIXED'))
+    fixed = os.environ.get('VERIF_X07_FIXED') or ''          # "1": every deviation is fixed in the tree under test; or a comma separated list of names
+    every = dict(DEVIATIONS, **TOKEN_DEVIATIONS, **VIEW_DEVIATIONS)
+    gone = set(every) if fixed == '1' else set(x for x in fixed.split(',') if x)
+    if gone - set(every):
+        raise RuntimeError('VERIF_X07_FIXED names unknown deviations: %s' % sorted(gone - set(every)))
+
+    def left(*tables):
+        return {k: v for t in tables for k, v in t.items() if k not in gone}
     stats = {'dev': {}, 'exc': {}}
-    n1 = run_part1(ctx, {} if fixed else DEVIATIONS, stats)
-    n2 = run_part2(ctx, {} if fixed else dict(DEVIATIONS, **TOKEN_DEVIATIONS), stats)
-    n3 = run_part3(ctx, {} if fixed else VIEW_DEVIATIONS, stats)
+    n1 = run_part1(ctx, left(DEVIATIONS), stats)
+    n2 = run_part2(ctx, left(DEVIATIONS, TOKEN_DEVIATIONS), stats)
+    n3 = run_part3(ctx, left(VIEW_DEVIATIONS), stats)
     ctx.rule = ('metadata: every URI the TZIP-16 grammar generates from the intents of the bounded universe (tezos-storage with/without host and network, %d keys ' % len(KEYS) +
                 'x 3 percent-encoding styles; 4 http(s) URLs; IPFS with 3 paths; sha256 wrappers; 7 texts outside the grammar) x fault at the target x 7 storage '
                 'layouts (probe intents) x 4 gateway routes (IPFS intents); token_metadata: contract metadata none / without / with the view x token unknown / '
@@ -664,9 +671,8 @@ def run(ctx):
                        'outside the compared domain: unescaped "/", "?", "#" in keys, malformed escapes, upper-case schemes, non-UTF-8 URI bytes, '
                        'tezos-storage://host without a path, a contract metadata URI that fails while a token is looked up, '
                        'a token_info with both a link and fields',
-                       ('VERIF_X07_FIXED=1: the intended model is replayed' if fixed else
-                        'the deviations %s are modelled as coded (INFO lines); VERIF_X07_FIXED=1 switches the model to the intended behaviour to try a patch' % (
-                            sorted(DEVIATIONS) + sorted(TOKEN_DEVIATIONS) + sorted(VIEW_DEVIATIONS)))]
+                       'the deviations %s are modelled as coded (INFO lines); VERIF_X07_FIXED=1 (or =Name,Name,..) switches the model to the intended '
+                       'behaviour for all (the named) deviations to try a patch%s' % (sorted(set(every) - gone), '; fixed in this run: %s' % sorted(gone) if gone else '')]
     what = dict(DEVIATIONS, **TOKEN_DEVIATIONS, **VIEW_DEVIATIONS)
     for d, st in sorted(stats['dev'].items()):
         mod = 'MetadataUriToken' if d in TOKEN_DEVIATIONS else 'MetadataUriView' if d in VIEW_DEVIATIONS else 'MetadataUri'
